@@ -9,7 +9,7 @@ Inductive cmd :=
 | CSwap (d : Z) | CDup (d : Z) | CSpill (d : Z) | CRestore (op : Z) | CRelease (live : list Z)
 | CReorder (dry : bool) (ops : list Z) | CPop (n : Z) | CPush (x : Z) | CSwapOp (x : Z) | CDupOp (x : Z)
 | CEmit (invoke : bool) (ops live : list Z) | CPopMany (xs : list Z)
-| CClean (layout inputs : list Z) (bound promise : option Z)
+| CClean (layout inputs : list Z) (bound promise : option Z) | CStartFn (eoms : list Z)
 | CInst (kind code : Z) (ops outs live : list Z) (next_term skip_pops : bool).
 
 Record world := mkW { w_a : list ainstr; w_m : list Z; w_s : sp; w_d : spilled; w_costs : list Z }.
@@ -34,6 +34,7 @@ Definition run_cmd (classes : list (Z * Z)) (c : cmd) (w : world) : res world :=
     end
   | CPop n => if (0 <=? n) && (n <=? zlen m) then Ok (mkW (a ++ repeat APop (Z.to_nat n)) (st_pop m n) s d costs) else Err BadIndex
   | CPush x => Ok (mkW (a ++ [APush x]) (st_push m x) s d costs)
+  | CStartFn eoms => Ok (mkW a m (start_fn eoms s) [] costs)
   | CSwapOp x => match spec_get_depth m x with
                  | None => Err AssertFail
                  | Some dp => match sp_swap false dp a m s with Ok (a', m', s', c') => Ok (mkW a' m' s' d (costs ++ [c'])) | Err e => Err e end
